@@ -80,7 +80,10 @@ Near(a, m, mag) == BigLe(BigShl(BigAbs(BigSub(a, m)), 21), BigAdd(mag, BigPow2(2
 (***************************************************************************)
 (* kind "tiny"                                                             *)
 (***************************************************************************)
-Small(t) == t.sbit <= 12 /\ t.spos <= 12
+\* operands for which ShiftSelect can be evaluated with TLC's native 32-bit integers (otherwise: ShiftSelectBig)
+SmallOpts(t) == t.sbit <= 12 /\ t.spos <= 12 /\ t.te >= 0 /\ t.te <= 10
+Small(t)     == SmallOpts(t) /\ t.tm <= 255 /\ Abs(t.b) <= 1000
+SmallA(t)    == SmallOpts(t) /\ \A i \in DOMAIN t.tms : t.tms[i] <= 255
 
 TinyCheck(t) ==
     LET mau   == t.backend = "maupiti"
@@ -140,7 +143,7 @@ ApproxCheck(t) ==
         tmsB == [i \in 1..n |-> BigInt(t.tms[i])]
         tesB == [i \in 1..n |-> -t.te]
         bsB  == [i \in 1..n |-> BigInt(t.bs[i])]
-        eSh  == IF Small(t) THEN ShiftSelect(t.tms, t.te, t.bs, t.sbit, t.spos)
+        eSh  == IF SmallA(t) THEN ShiftSelect(t.tms, t.te, t.bs, t.sbit, t.spos)
                 ELSE ShiftSelectBig(tmsB, tesB, bsB, t.sbit, t.spos)
         pre  == "approx " \o t.cls \o " T=" \o Str(t.tms) \o "/2^" \o Str(t.te) \o " b=" \o Str(t.bs)
                    \o " scale_bit=" \o Str(t.sbit) \o " shift_pos=" \o Str(t.spos) \o ": "
